@@ -833,6 +833,18 @@ pub fn gen_c10(rng: &mut Rng, tier: Tier) -> MsgScn {
         front.append(&mut s.cases);
         s.cases = front;
     }
+    // validly signed tokens whose payload text no JSON value can express (repeated members,
+    // huge numbers, BOM, trailing data …): both forms must judge them alike
+    if !s.issuers[0].key.starts_with("hs") || true {
+        let texts = crate::hostile::raw_payload_texts(s.clock_base.max(1_000_000_000) + 86400);
+        let key = s.issuers[0].key.clone();
+        let alg = s.issuers[0].alg.clone().unwrap_or_else(|| crate::keys::alg_of(&key).to_string());
+        for _ in 0..3 {
+            let mut c = plain(Base::Cred(0), rand_fmt(rng));
+            c.faults.push(Fault::RawPayload { text: rng.pick(&texts).clone(), key: key.clone(), alg: alg.clone() });
+            s.cases.push(c);
+        }
+    }
     // a presentation that reveals nothing, with one blank disclosure / doubled separator
     for b in [Base::Cred(0), Base::Pres(0)] {
         for f in [Fmt::Compact, Fmt::Json] {
